@@ -117,6 +117,29 @@ pub fn run_history<W: Write>(
             }
         }
         let res = tr.exec(&mut live, &op);
+        if prof.tree {
+            // whole-stream write: create, write everything sequentially, drop
+            if let Op::CreateStream(h, _) | Op::CreateNewStream(h, _) = &op {
+                if res == "ok" {
+                    let n = g.size();
+                    let data = g.data(n);
+                    let mut off = 0usize;
+                    while off < data.len() {
+                        let r = tr.exec(&mut live, &Op::HWrite(*h, data[off..].to_vec()));
+                        match r.strip_prefix("n:").and_then(|k| k.parse::<usize>().ok()) {
+                            Some(k) if k > 0 => off += k,
+                            _ => break,
+                        }
+                    }
+                    tr.exec(&mut live, &Op::HDrop(*h));
+                }
+                g.occupied[*h] = false;
+                if live.dead {
+                    break;
+                }
+                continue;
+            }
+        }
         match &op {
             Op::CreateStream(h, p) | Op::CreateNewStream(h, p) | Op::OpenStream(h, p) => {
                 if res != "ok" {
